@@ -72,6 +72,8 @@ type Obligation struct {
 	noCOI   bool
 	instMode bool
 	smtInst string
+	noLazy   bool   // leave out lazily included axioms
+	smtNoLazy string // full assumption set without the lazy axioms (a weaker hypothesis set)
 	replayExtra []string // extra assertions of a model query (replay)
 	replayGet   []string // terms whose model values are requested
 }
@@ -1140,6 +1142,7 @@ type declInfo struct {
 	defines string // symbol introduced ("" for assert lines)
 	uses    []string
 	anchor  string
+	lazy    bool // axiom left out of the first, cheap attempts (see pixOffset)
 }
 
 func (vc *VC) declInfos(n int) []declInfo {
@@ -1157,7 +1160,12 @@ func (vc *VC) declInfos(n int) []declInfo {
 		if k := strings.Index(body, " ; "); k >= 0 && strings.HasPrefix(d, "(declare-const") {
 			body = body[:k]
 		}
-		if k := strings.Index(body, " ;anchor="); k >= 0 {
+		if k := strings.Index(body, " ;lazyanchor="); k >= 0 {
+			di.anchor = strings.TrimSpace(body[k+13:])
+			di.lazy = true
+			body = body[:k]
+			di.text = d[:strings.Index(d, " ;lazyanchor=")]
+		} else if k := strings.Index(body, " ;anchor="); k >= 0 {
 			di.anchor = strings.TrimSpace(body[k+9:])
 			body = body[:k]
 			di.text = d[:strings.Index(d, " ;anchor=")]
@@ -1329,6 +1337,9 @@ func (o *Obligation) smtVariant(produceModels bool, dropQuantified bool) string 
 				continue
 			}
 			if di.anchor != "" {
+				if di.lazy && o.noLazy {
+					continue
+				}
 				if used[di.anchor] {
 					include[i] = true
 					changed = true
